@@ -112,7 +112,41 @@ func nextID() int {
 }
 
 // execute runs plz for the case and judges the run.
-func execute(c *sched.Case) *outcome {
+// envSensitive: outcomes that a starved machine can produce on its own (the log-based classes never are).
+var envSensitive = map[string]bool{"did-not-terminate": true, "exit-nonzero-without-failure": true,
+	"needed-target-not-built": true, "keep-going-skipped-buildable-target": true}
+
+// suspicious: every failure of the outcome is environment-sensitive.
+func suspicious(o *outcome) bool {
+	if len(o.fails) == 0 {
+		return false
+	}
+	for _, f := range o.fails {
+		if !envSensitive[f[0]] {
+			return false
+		}
+	}
+	return true
+}
+
+// confirm re-runs a suspicious case with nothing else of this harness running: the failure is reported only if
+// it shows again (the first occurrence is still counted).
+func confirm(c *sched.Case, o *outcome) *outcome {
+	if !suspicious(o) {
+		return o
+	}
+	o2 := executeOnce(c)
+	if len(o2.fails) == 0 {
+		o2.counts = append(o2.counts, "not-reproduced-on-rerun:"+o.fails[0][0])
+		return o2
+	}
+	o2.fails[0][2] += " | reproduced on an isolated re-run"
+	return o2
+}
+
+func execute(c *sched.Case) *outcome { return confirm(c, executeOnce(c)) }
+
+func executeOnce(c *sched.Case) *outcome {
 	res, err := c.Run(os.Getenv("VERIF_PLZ"), os.Getenv("VERIF_SCRATCH"), nextID(), wallLimit)
 	if err != nil {
 		return &outcome{line: "run " + c.Encode(), out: "harness-error " + err.Error()}
@@ -277,11 +311,12 @@ func main() {
 		go func(i int, c *sched.Case) {
 			defer wg.Done()
 			defer func() { <-sem }()
-			outs[i] = execute(c)
+			outs[i] = executeOnce(c)
 		}(i, c)
 	}
 	wg.Wait()
-	for _, o := range outs {
+	for i, o := range outs {
+		o = confirm(cases[i], o)
 		flush(r, o)
 		r.Count("plz-runs")
 	}
